@@ -96,9 +96,13 @@ def annotation_hooks(sc, changed, stored, log):
 def run(ctx):
     syn = Syn(ctx.facts.syn())
     ctx.not_decided += ["that text_join / the SHA-1 digest are functions of exactly the selected characters (run-time text)",
-                        "persistence of the validation data across save and reload (C05)",
+                        "persistence of the validation data across save and reload beyond the CSV dialect (C05, C15)",
                         "collisions: two different texts with the same joined form or digest"]
     ctx.assumptions += ["the joined text and its digest are modelled as opaque injective tokens of (selected text, delimiter)"]
+    # the validation texts are data values: a CSV save/reload must hand them back character for character
+    import mirq
+    from props.c15 import dialect_rule
+    dialect_rule(ctx, mirq.Program(ctx.facts.mir()), rid="C18.DIALECT")
     fns = [f for f in syn.fns if f.file == FILE]
     by = {}
     for f in fns:
